@@ -238,3 +238,52 @@ def _thin(rng, pool, n):
         return pool
     idx = sorted(rng.sample(range(len(pool)), n))
     return [pool[i] for i in idx]
+
+
+def large_values(rng, quick=True):
+    """Yield (label, type, value): collections of 9, 10, 11 ... hundreds of elements (where sorting by text and sorting by value
+    part ways), wide combs, deep nestings, strings and byte strings past the 2**8 / 2**16 length thresholds."""
+    ns = [9, 10, 11, 12, 100, 127, 128, 255, 256, 257] + ([] if quick else [1000, 5000])
+    for n in ns:
+        nats = list(range(n))
+        ints = list(range(-(n // 2), n - n // 2))
+        strs = sorted({str(i) for i in range(n)} | {'k%d' % i for i in range(n // 2)})
+        byts = O.sort_unique(T.BYTES, [i.to_bytes(2, 'big').lstrip(b'\x00') for i in range(n)])
+        yield 'list-%d' % n, T.list_(T.NAT), [rng.choice(INT_POOL[:12]) % 997 for _ in range(n)]
+        yield 'list-of-pairs-%d' % n, T.list_(T.pair(T.NAT, T.STRING)), [(i, str(i)) for i in range(n)]
+        yield 'set-nat-%d' % n, T.set_(T.NAT), nats
+        yield 'set-int-%d' % n, T.set_(T.INT), ints
+        yield 'set-string-%d' % n, T.set_(T.STRING), O.sort_unique(T.STRING, strs)
+        yield 'set-bytes-%d' % n, T.set_(T.BYTES), byts
+        yield 'map-nat-%d' % n, T.map_(T.NAT, T.STRING), [(i, 'v%d' % i) for i in nats]
+        yield 'map-int-%d' % n, T.map_(T.INT, T.option(T.NAT)), [(i, None if i % 3 == 0 else ('Some', abs(i))) for i in ints]
+        yield 'map-string-%d' % n, T.map_(T.STRING, T.NAT), [(k, j) for j, k in enumerate(O.sort_unique(T.STRING, strs))]
+        yield 'map-pair-%d' % n, T.map_(T.pair(T.NAT, T.INT), T.BOOL), [((i // 10, i % 10 - 5), i % 2 == 0) for i in range(n)]
+        yield 'map-of-maps-%d' % n, T.map_(T.NAT, T.map_(T.STRING, T.NAT)), [(i, [(str(i), i)] if i % 2 else []) for i in range(min(n, 128))]
+    for w in (2, 3, 4, 5, 8, 9, 10, 11, 16, 17, 33):
+        yield 'comb-%d' % w, T.pair(*([T.NAT, T.STRING, T.INT, T.BYTES] * w)[:w]), _right([[i, 's%d' % i, -i, bytes([i])][i % 4] for i in range(w)])
+        yield 'comb-of-options-%d' % w, T.pair(*[T.option(T.NAT)] * w), _right([None if i % 2 else ('Some', i) for i in range(w)])
+    for d in (2, 3, 9, 10, 11, 30):
+        t, v = T.NAT, d
+        for k in range(d):
+            if k % 3 == 0:
+                t, v = T.or_(t, T.STRING), ('L', v)
+            elif k % 3 == 1:
+                t, v = T.list_(t), [v]
+            else:
+                t, v = T.pair(T.NAT, t), (k, v)
+        yield 'deep-%d' % d, t, v
+        t, v = T.STRING, 'leaf'
+        for k in range(d):
+            t, v = (T.or_(T.NAT, t), ('R', v)) if k % 2 else (T.or_(t, T.NAT), ('L', v))
+        yield 'deep-or-%d' % d, t, v
+    for n in ([255, 256, 257, 4096, 65535, 65536, 65537] if quick else [127, 128, 255, 256, 257, 1023, 1024, 4096, 16384, 65535, 65536, 65537, 200001]):
+        yield 'string-%d' % n, T.STRING, ''.join(rng.choice('abc XYZ019') for _ in range(n))
+        yield 'bytes-%d' % n, T.BYTES, rbytes(rng, n)
+        yield 'pair-of-long-%d' % n, T.pair(T.STRING, T.BYTES), ('x' * n, b'\x00' * n)
+    for bits in (64, 65, 127, 128, 256, 512, 1024, 4095, 8192, 13000):
+        yield 'int-%d' % bits, T.pair(T.INT, T.NAT), (-(2 ** bits) + 1, 2 ** bits)
+
+
+def _right(vs):
+    return vs[0] if len(vs) == 1 else (vs[0], _right(vs[1:]))
